@@ -414,6 +414,10 @@ func c05Run(c *fw.Ctx, b fw.Batch) {
 				all = append(all, combo{f, L})
 			}
 		}
+		// limits beyond 16 MiB (buffers that grow in steps): cheap fillers only
+		for _, L := range []int{1<<24 + 1, 1<<24 + 4097, 3<<23 + 5} {
+			all = append(all, combo{"zeros", L}, combo{"text", L})
+		}
 		lo, hi := split(len(all), b.Idx, b.Of)
 		for _, cb := range all[lo:hi] {
 			L := cb.L
@@ -532,6 +536,65 @@ func c05Run(c *fw.Ctx, b fw.Batch) {
 							}
 						}
 						c.Distinct("zoo|" + name + "|" + fmt.Sprint(lim == 0, int(lim) < len(x)))
+					}
+				}
+			}
+		}
+		// readers that were read from before: detection starts where the reader stands, whatever
+		// optional interfaces (io.Seeker) it implements
+		fdir, _ := os.MkdirTemp("", "verif-c05-")
+		defer os.RemoveAll(fdir)
+		for _, x := range ins {
+			if len(x) < 40 || len(x) > 9000 {
+				continue
+			}
+			for _, k := range []int{1, 7, len(x) / 2, len(x) - 1} {
+				rest := x[k:]
+				for _, lim := range []uint32{0, 3072, uint32(len(rest)), 16} {
+					want := lib.ChainOf(lib.Detect(rest, lim)).String()
+					fp := filepath.Join(fdir, "pre.bin")
+					os.WriteFile(fp, x, 0o600)
+					for _, name := range []string{"bytes.Reader", "strings.Reader", "os.File"} {
+						var rd io.Reader
+						var closer func()
+						switch name {
+						case "bytes.Reader":
+							br := bytes.NewReader(x)
+							io.CopyN(io.Discard, br, int64(k))
+							rd = br
+						case "strings.Reader":
+							sr := strings.NewReader(string(x))
+							sr.Seek(int64(k), io.SeekStart)
+							rd = sr
+						default:
+							f, err := os.Open(fp)
+							if err != nil {
+								continue
+							}
+							f.Seek(int64(k), io.SeekStart)
+							rd, closer = f, func() { f.Close() }
+						}
+						key := fw.InputKey(rest, lim, "DetectReader/pre-read/"+name)
+						p := c05Payload{Kind: "pre-read:" + name, In: rest, Limit: lim, Entry: "DetectReader", InQ: fw.Quote(rest, 80)}
+						c.Trace(func() (string, any) { return key, p })
+						var got string
+						var err error
+						okg := c.Guard(key, func() any { return p }, func() {
+							mimetype.SetLimit(lim)
+							m, e := mimetype.DetectReader(rd)
+							got, err = lib.ChainOf(m).String(), e
+						})
+						if closer != nil {
+							closer()
+						}
+						if !okg {
+							continue
+						}
+						c.Eval(1)
+						c.Count("pre_read_reader_cases", 1)
+						if err != nil || got != want {
+							c.Violate("entry-points-disagree", key, fmt.Sprintf("a %s from which %d bytes had been read before gives (%s, %v); Detect on the remaining %d bytes gives %s; limit %d", name, k, got, err, len(rest), want, lim), p)
+						}
 					}
 				}
 			}
@@ -791,7 +854,7 @@ func init() {
 	fw.Register(&fw.Prop{
 		ID:    "C05",
 		Level: "fault_enumeration",
-		Rule: "inputs = every seed + text tails + small text documents; limits {0, 1, len-1, len, len+1, 3072, random}; chunk schedules {1, 2, 3, 7, 512, as-asked, random 1-9, random 1-2000} with occasional (0, nil) reads and data returned together with io.EOF; a preceding DetectReader under a different limit (state left behind); an error (a plain sentinel, and error values of 15 classes: deadline exceeded bare / wrapped / in a net.OpError, context errors, closed pipe, ECONNRESET, EINTR, EAGAIN, a PathError, an error whose text is \"EOF\") injected at EVERY offset 0..min(len, limit) for headers <= 600 bytes (every k-th and the last 4 offsets beyond), returned alone or together with the last bytes before it, sticky or reported only once (the next Read delivers data again); the standard library's concrete readers (bytes.Buffer, bytes.Reader, strings.Reader, bufio.Reader, io.LimitReader, io.MultiReader, iotest one-byte / half / data-with-error readers) with their consumption checked; DetectFile over temp files for every input and limit, an empty file, procfs files (regular files whose stat size is 0), sparse files of 2 GiB … 8 GiB whose size does not fit 31 / 32 bits, a missing path, a directory (EISDIR) and /proc/self/mem (read error), path spellings that only the operating system resolves correctly (symlink followed by '..', '//', '/./', trailing '/', names with blanks / newline / non-ASCII / 250 and 300 bytes, dangling link, empty path: expectation = what os.ReadFile delivers for the same string) and named pipes; streams much longer than the limit (JSON / text / CSV / NDJSON / zero fillers of limit + 1 … limit + 70000 bytes with one deciding defect at limit-1, limit-2, limit, limit/2, a page boundary …) for limits 4095 … 5 MiB with chunk sizes as-asked / 4096 / 32769 / 65536 and errors of every class injected just before, at and after the limit. The instrumented reader records bytes handed out, calls, and when the sentinel was really returned; expectations are derived from those observations. " +
+		Rule: "inputs = every seed + text tails + small text documents; limits {0, 1, len-1, len, len+1, 3072, random}; chunk schedules {1, 2, 3, 7, 512, as-asked, random 1-9, random 1-2000} with occasional (0, nil) reads and data returned together with io.EOF; a preceding DetectReader under a different limit (state left behind); an error (a plain sentinel, and error values of 15 classes: deadline exceeded bare / wrapped / in a net.OpError, context errors, closed pipe, ECONNRESET, EINTR, EAGAIN, a PathError, an error whose text is \"EOF\") injected at EVERY offset 0..min(len, limit) for headers <= 600 bytes (every k-th and the last 4 offsets beyond), returned alone or together with the last bytes before it, sticky or reported only once (the next Read delivers data again); the standard library's concrete readers (bytes.Buffer, bytes.Reader, strings.Reader, bufio.Reader, io.LimitReader, io.MultiReader, iotest one-byte / half / data-with-error readers) with their consumption checked; seekable readers (bytes.Reader, strings.Reader, os.File) from which a prefix had been read before; DetectFile over temp files for every input and limit, an empty file, procfs files (regular files whose stat size is 0), sparse files of 2 GiB … 8 GiB whose size does not fit 31 / 32 bits, a missing path, a directory (EISDIR) and /proc/self/mem (read error), path spellings that only the operating system resolves correctly (symlink followed by '..', '//', '/./', trailing '/', names with blanks / newline / non-ASCII / 250 and 300 bytes, dangling link, empty path: expectation = what os.ReadFile delivers for the same string) and named pipes; streams much longer than the limit (JSON / text / CSV / NDJSON / zero fillers of limit + 1 … limit + 70000 bytes with one deciding defect at limit-1, limit-2, limit, limit/2, a page boundary …) for limits 4095 … 5 MiB (and 16 MiB + 1 … 24 MiB + 5 for the cheap fillers) with chunk sizes as-asked / 4096 / 32769 / 65536 and errors of every class injected just before, at and after the limit. The instrumented reader records bytes handed out, calls, and when the sentinel was really returned; expectations are derived from those observations. " +
 			"non-trivial = a short-read schedule or an injected fault actually occurred before the header was complete; distinct = distinct (chunk kind, zero reads, EOF-with-data, limit class, error offset class, error-with-data, previous-limit differs, outcome).",
 		Assumptions: []string{
 			"only conforming readers: never n > len(p), never endless (0, nil)",
